@@ -62,6 +62,13 @@ def special_transcripts(rng):
     out.append(("plain_hello_short", pc, pg + E.frame([5] + E.asc("HELLO") + [1], cmd=True)))
     out.append(("plain_hello_userlen", pc, pg + E.frame([5] + E.asc("HELLO") + [9, 65, 0], cmd=True)))
     out.append(("plain_hello_passlen", pc, pg + E.frame([5] + E.asc("HELLO") + [1, 117, 9, 112], cmd=True)))
+    # every prefix of a valid HELLO body as a complete, consistently framed command (cut after the user name, inside it, ...)
+    full_body = [5] + E.asc("admin") + [6] + E.asc("secret")
+    pc2 = E.mk_cfg(server=True, stype="REP", plain=True, user="admin", pw="secret")
+    for k in range(len(full_body) + 1):
+        out.append(("plain_hello_prefix_%d" % k, pc2, pg + E.frame([5] + E.asc("HELLO") + full_body[:k], cmd=True) + E.ready("REQ") + E.frame([1])))
+    for body in ([1, 97], [0], [0, 0], [2, 97], [255] + [97] * 255, [1, 97, 255], [1, 97, 0]):
+        out.append(("plain_hello_body_%s" % "_".join(map(str, body[:4])), pc, pg + E.frame([5] + E.asc("HELLO") + body, cmd=True)))
     out.append(("plain_hello_trailing", pc, pg + E.frame([5] + E.asc("HELLO") + [1, 117, 1, 112, 1, 2, 3], cmd=True) + E.ready("REQ") + E.frame([1])))
     out.append(("plain_data_as_token", pc, pg + E.frame([5] + E.asc("HELLO") + [1, 117, 1, 112]) + E.ready("REQ")))
     out.append(("v2_identity_256", E.mk_cfg(stype="PULL"), E.greeting_v2(8) + E.frame([1] * 256)))
